@@ -237,7 +237,7 @@ type wgTree struct {
 
 // genTree runs a random history on a fresh MemFS; nil when the history hit a panic/deadlock or an interrupted
 // RemoveAll (those belong to other properties).
-func genTree(r *rng, hl int, mode int) *wgTree {
+func genTree(r *rng, hl int, mode int, keepRoot bool) *wgTree {
 	um := r.pick2([]int{0o22, 0o22, 0, 0o77, 0o27})
 	w := newFSWorld("memfs", "linux", um)
 	g := &fsGen{r: r, w: w, admin: mode == 0, nviews: 1, single: true, clean: mode == 2, noEval: true, links: 1 + r.intn(2)}
@@ -248,6 +248,12 @@ func genTree(r *rng, hl int, mode int) *wgTree {
 		k := opKind(op)
 		if k == "CD" || k == "RA" || k == "SB" || k[0] == 'f' {
 			continue // the working directory is chosen at the end; no handles, no Sub views
+		}
+		if keepRoot && (k == "CM" || k == "CO" || k == "LC") && filepath.Clean("/"+untok(strings.Fields(op)[2])) == "/" {
+			// oracle stream: the mode and owner of "/" stay as created.  MemFS never checks search permission on the
+			// root directory itself (a C03 matter: with "/" at 0644 an unprivileged identity still resolves "/tmp",
+			// Linux answers EACCES); the enumeration composites are compared on trees where that cannot show.
+			continue
 		}
 		res := w.applyGuarded(strings.Fields(op))
 		if res == "DEADLOCK" || res == "PANIC" {
@@ -447,6 +453,36 @@ func orefaBuild(snap []snapEntry, ofs avfs.VFS) []string {
 	return ops
 }
 
+// orefaAdmissible: OrefaFS keeps a flat map from absolute path to node; a name whose parent is missing or is not a
+// directory gets "no such file or directory" where a tree walk (MemFS, Linux) says "not a directory".  The reference
+// of the OrefaFS lines is the MemFS model run as the administrator, so ReadDir and the helpers (whose answers carry
+// the error) are asked only about paths all of whose proper ancestors are directories of the tree (working directory
+// "/"); WalkDir and Glob, which only look at whether a primitive failed, are asked about everything.
+func orefaAdmissible(qs []string, snap []snapEntry) []string {
+	dirs := map[string]bool{}
+	for _, e := range snap {
+		if e.kind == 'D' {
+			dirs[e.path] = true
+		}
+	}
+	var out []string
+	for _, q := range qs {
+		t := strings.Fields(q)
+		if t[1] == "R" || t[1] == "H" {
+			p := untok(t[2])
+			if p == "" {
+				continue
+			}
+			ap := filepath.Clean("/" + p)
+			if ap != "/" && !dirs[filepath.Dir(ap)] {
+				continue
+			}
+		}
+		out = append(out, q)
+	}
+	return out
+}
+
 func replayCase(line string) (hd []string, ops, qs []string) {
 	parts := strings.Split(line, " | ")
 	hd = strings.Fields(parts[0])
@@ -522,7 +558,7 @@ func runWalkGlob(cfg config) {
 	for i := 0; i < ntrees; i++ {
 		var t *wgTree
 		for t == nil {
-			t = genTree(r, hl, i%3)
+			t = genTree(r, hl, i%3, false)
 		}
 		o.count(fmt.Sprintf("tree-entries:%02d-%02d", len(t.snap)/10*10, len(t.snap)/10*10+9))
 		o.count(fmt.Sprintf("acting-admin:%d", t.user[2]))
@@ -580,7 +616,7 @@ func runWalkGlob(cfg config) {
 					t3.snap = append(t3.snap, e)
 				}
 			}
-			qs3 := t3.queries(r, oo, maxSeg, maxPaths, false, nil)
+			qs3 := orefaAdmissible(t3.queries(r, oo, maxSeg, maxPaths, false, nil), t3.snap)
 			emitBatches(o, hdr, ops, qs3, func(q string) string { return guardedQuery(oo, q) }, nil)
 			nq += len(qs3)
 		}
@@ -667,8 +703,10 @@ func runWalkGlobOracle(cfg config) {
 		defer j.leave()
 		materialise(w, snap)
 		setThreadIdentity(user[0], user[1])
-		if err := os.Chdir(cwd); err != nil {
-			panic(fmt.Sprintf("oracle: chdir %s as %v: %v", cwd, user, err))
+		if cwd != "/" { // enterJail left the process in "/" (no search permission is needed to stay there)
+			if err := os.Chdir(cwd); err != nil {
+				panic(fmt.Sprintf("oracle: chdir %s as %v: %v", cwd, user, err))
+			}
 		}
 		f(hostOps())
 	}
@@ -715,7 +753,7 @@ func runWalkGlobOracle(cfg config) {
 	for i := 0; i < ntrees; i++ {
 		var t *wgTree
 		for t == nil {
-			t = genTree(r, hl, i%3)
+			t = genTree(r, hl, i%3, true)
 		}
 		hdr := fmt.Sprintf("memfs %s %d -", cr, t.um)
 		mo := vfsOps(t.w.views[0])
